@@ -134,6 +134,28 @@ impl NodeFx {
     }
 }
 
+impl NodeFx {
+    /// Like `NodeFx::new`, with an arbitrary validator factory (e.g. OnchainValidatorFactory).
+    /// `restart_copy` of such a fixture falls back to the default simple factory.
+    pub fn new_with_factory(network: Network, factory: Arc<dyn ValidatorFactory>) -> NodeFx {
+        let store = new_mem_persister();
+        let clock = Arc::new(ManualClock::new(Duration::from_secs(NOW_SECS)));
+        let services = NodeServices {
+            validator_factory: factory,
+            starting_time_factory: FixedStartingTimeFactory::new(NOW_SECS, 0),
+            persister: store.clone(),
+            clock: clock.clone(),
+            trusted_oracle_pubkeys: vec![],
+        };
+        let config = NodeConfig::new(network);
+        let node = Arc::new(Node::new(config, &seed(), vec![], services));
+        node.add_allowlist(&[]).expect("allowlist");
+        store.new_node(&node.get_id(), &config, &*node.get_state()).expect("new_node");
+        store.new_tracker(&node.get_id(), &node.get_tracker()).expect("new_tracker");
+        NodeFx { node, store, clock, policy: None, network }
+    }
+}
+
 pub fn default_policy(network: Network) -> SimplePolicy {
     make_default_simple_policy(network)
 }
@@ -310,4 +332,86 @@ pub fn node_state_json(st: &NodeState, network: Network) -> Value {
     json!({"invoices": inv, "issued": iss, "payments": pay, "excess": st.excess_amount,
            "vc": vc_json(&st.velocity_control), "fvc": vc_json(&st.fee_velocity_control),
            "dbid": st.dbid_high_water_mark, "allow": allow})
+}
+
+// ---------------------------------------------------------------------------------------------
+// whole-signer state (node state, tracker with monitors, every channel) as JSON, for digests and
+// for comparing a running signer with a restored one
+
+use lightning_signer::channel::ChannelSlot;
+use vls_persist::model::ChainTrackerEntry;
+
+pub fn channels_json(fx: &NodeFx) -> Value {
+    let mut out = vec![];
+    let ids: Vec<(ChannelId, std::sync::Arc<lightning_signer::prelude::Mutex<ChannelSlot>>)> =
+        fx.node.get_channels().iter().map(|(k, v)| (k.clone(), v.clone())).collect();
+    for (key, slot) in ids {
+        let g = slot.lock().unwrap();
+        let v = match &*g {
+            ChannelSlot::Stub(s) => json!({"key": hex::encode(key.as_slice()), "phase": "stub",
+                                            "id0": hex::encode(s.id0.as_slice()), "blockheight": s.blockheight}),
+            ChannelSlot::Ready(c) => json!({"key": hex::encode(key.as_slice()), "phase": "ready",
+                                             "id0": hex::encode(c.id0.as_slice()),
+                                             "id": c.id.as_ref().map(|i| hex::encode(i.as_slice())),
+                                             "estate": serde_json::to_value(&c.enforcement_state).unwrap(),
+                                             "setup": format!("{:?}", c.setup),
+                                             "forget": c.monitor.forget_seen()}),
+        };
+        out.push(v);
+    }
+    Value::Array(out)
+}
+
+pub fn tracker_json(fx: &NodeFx) -> Value {
+    let t = fx.node.get_tracker();
+    let e = ChainTrackerEntry::from(&*t);
+    serde_json::to_value(&e).unwrap()
+}
+
+pub fn full_state_json(fx: &NodeFx) -> Value {
+    let ns = node_state_json(&fx.node.get_state(), fx.network);
+    json!({"node": ns, "tracker": tracker_json(fx), "channels": channels_json(fx)})
+}
+
+/// the part of the node state that must survive a restart (C11): everything except the
+/// in-flight payment bookkeeping, which is rebuilt from the channels
+pub fn durable_state_json(fx: &NodeFx) -> Value {
+    let mut v = full_state_json(fx);
+    let pre: Vec<Value> = v["node"]["payments"]
+        .as_array()
+        .unwrap()
+        .iter()
+        .filter(|p| !p[1]["pre"].is_null())
+        .map(|p| json!([p[0], p[1]["pre"]]))
+        .collect();
+    v["node"]["preimages"] = Value::Array(pre);
+    v["node"].as_object_mut().unwrap().remove("payments");
+    // velocity counters are the subject of C12, not of the durable view of C11
+    v["node"].as_object_mut().unwrap().remove("vc");
+    v["node"].as_object_mut().unwrap().remove("fvc");
+    v
+}
+
+/// paths of differing leaves (depth-limited), e.g. "channels.0.estate.next_holder_commit_num"
+pub fn json_diff(a: &Value, b: &Value, prefix: &str, depth: usize, out: &mut Vec<String>) {
+    if a == b {
+        return;
+    }
+    match (a, b) {
+        (Value::Object(x), Value::Object(y)) if depth > 0 => {
+            let mut keys: Vec<&String> = x.keys().chain(y.keys()).collect();
+            keys.sort();
+            keys.dedup();
+            for k in keys {
+                let p = if prefix.is_empty() { k.clone() } else { format!("{}.{}", prefix, k) };
+                json_diff(x.get(k).unwrap_or(&Value::Null), y.get(k).unwrap_or(&Value::Null), &p, depth - 1, out);
+            }
+        }
+        (Value::Array(x), Value::Array(y)) if depth > 0 && x.len() == y.len() => {
+            for i in 0..x.len() {
+                json_diff(&x[i], &y[i], &format!("{}.{}", prefix, i), depth - 1, out);
+            }
+        }
+        _ => out.push(prefix.to_string()),
+    }
 }
